@@ -4,6 +4,11 @@
 package main
 
 import (
+	"fmt"
+	"net"
+
+	pt "gitlab.torproject.org/tpo/anti-censorship/pluggable-transports/goptlib"
+
 	"os"
 	"os/signal"
 	"syscall"
@@ -13,6 +18,13 @@ import (
 )
 
 var verifProps = map[string]*harness.Prop{}
+
+// verifDialOr stands in for pt.DialOr in serverHandler (the build weaves that
+// one call: the ORPort is reached over a real socket otherwise).  Scenarios set
+// it for the duration of a run.
+var verifDialOr = func(info *pt.ServerInfo, addr, name string) (net.Conn, error) {
+	return nil, fmt.Errorf("verif: no simulated ORPort in this scenario")
+}
 
 func TestVerif(t *testing.T) {
 	// newTermMonitor calls signal.Notify: let the runtime set up its signal
